@@ -80,6 +80,7 @@ func (f *Delete) Call(s *slip.Scope, args slip.List, depth int) (result slip.Obj
 	sfv.setKeysItem(f, s, args, depth)
 	switch ta := args[1].(type) {
 	case nil:
+		sfv.checkBounds(s, depth, 0)
 		// nothing to delete
 	case slip.List:
 		result = f.inList(s, ta, depth, &sfv)
@@ -97,9 +98,7 @@ func (f *Delete) Call(s *slip.Scope, args slip.List, depth int) (result slip.Obj
 }
 
 func (f *Delete) inList(s *slip.Scope, seq slip.List, depth int, sfv *seqFunVars) (list slip.List) {
-	if sfv.end < 0 || len(seq) < sfv.end {
-		sfv.end = len(seq)
-	}
+	sfv.checkBounds(s, depth, len(seq))
 	d2 := depth + 1
 	var count int
 	if sfv.fromEnd {
@@ -158,9 +157,7 @@ func (f *Delete) inList(s *slip.Scope, seq slip.List, depth int, sfv *seqFunVars
 
 func (f *Delete) inString(s *slip.Scope, seq slip.String, depth int, sfv *seqFunVars) slip.Object {
 	ra := []rune(seq)
-	if sfv.end < 0 || len(seq) < sfv.end {
-		sfv.end = len(seq)
-	}
+	sfv.checkBounds(s, depth, len(ra))
 	d2 := depth + 1
 	var (
 		count int
@@ -223,9 +220,7 @@ func (f *Delete) inString(s *slip.Scope, seq slip.String, depth int, sfv *seqFun
 
 func (f *Delete) inOctets(s *slip.Scope, seq slip.Octets, depth int, sfv *seqFunVars) slip.Object {
 	ba := []byte(seq)
-	if sfv.end < 0 || len(seq) < sfv.end {
-		sfv.end = len(seq)
-	}
+	sfv.checkBounds(s, depth, len(seq))
 	d2 := depth + 1
 	var (
 		count int
